@@ -66,7 +66,9 @@ def tree_record(nfields: int):
 
     D = RecordDescriptor("t/tree", [("record", f"f{i}") for i in range(nfields)])
 
-    def check(a: int, b: Optional[int], c: int, has_src: bool) -> bool:
+    import flow.record.base as B
+
+    def check(a: int, b: Optional[int], c: int, has_src: bool, ig_field: bool, ig_gen: bool) -> bool:
         """
         post: _
         """
@@ -75,7 +77,13 @@ def tree_record(nfields: int):
         vals = [a, b, c][:nfields]
         gen = _dt.datetime(2020, 1, 2, 3, 4, 5, 6, tzinfo=_dt.timezone.utc)
         rec = D(*vals, _source="S" if has_src else None, _generated=gen)
-        with msgtree.installed() as P:
+        # the comparison configuration (fields ignored by == / hash) must not reach the wire
+        ign = set()
+        if ig_field:
+            ign.add("f0")
+        if ig_gen:
+            ign.add("_generated")
+        with msgtree.installed() as P, B.ignore_fields_for_comparison(ign):
             pk = RecordPacker()
             got = pk.pack(rec)
             gen_tree = msgtree.Ext(wire.EXT, (wire.T_DATETIME, (2020, 1, 2, 3, 4, 5, 6)))
@@ -278,18 +286,29 @@ def _plain(v):
     return v
 
 
-def end_to_end():
-    """Implementation-encoded bytes are decoded by the independent reference decoder to the records written (and every
+def end_to_end(ignore: bool = False):
+    """(with `ignore`: the stream is written while a non-empty ignored-fields-for-comparison configuration is active)
+    Implementation-encoded bytes are decoded by the independent reference decoder to the records written (and every
     record is preceded by its descriptor with the published hash); reference-encoded bytes are decoded by the implementation."""
     from flow.record import GroupedRecord
     from flow.record.stream import RecordStreamReader, RecordStreamWriter
 
+    import flow.record.base as B
+
     recs = _battery()
+    ign = set()
+    if ignore:
+        ign = {"_generated", "_source"}
+        for r in recs:
+            fts = r._desc.get_field_tuples() if not isinstance(r, GroupedRecord) else ()
+            if fts:
+                ign.add(fts[0][1])
     buf = io.BytesIO()
-    w = RecordStreamWriter(buf)
-    for r in recs:
-        w.write(r)
-    w.flush()
+    with B.ignore_fields_for_comparison(ign):
+        w = RecordStreamWriter(buf)
+        for r in recs:
+            w.write(r)
+        w.flush()
     data = buf.getvalue()
     w.fp = None
     try:
@@ -335,7 +354,7 @@ def end_to_end():
 
 
 def obligations(tier, seed):
-    obs = [ob("side/constants", "side", "constants", {}), ob("side/end-to-end-bytes", "side", "end_to_end", {})]
+    obs = [ob("side/constants", "side", "constants", {}), ob("side/end-to-end-bytes", "side", "end_to_end", {}), ob("side/end-to-end-bytes-ignore-config", "side", "end_to_end", {"ignore": True})]
     obs.append(ob("O1-length-prefix", "smt", "length_prefix", {}, timeout=60, bounds="all n < 2^32"))
     if tier == "quick":
         obs.append(ob("O2-varint-payload/bits56-72", "smt", "varint_payload", {"min_bits": 56, "max_bits": 72, "width": 160}, timeout=120, group="O2-varint", bounds="bit lengths 56..72 (hand-over from msgpack's native ints)"))
@@ -371,6 +390,9 @@ def replay(res):
     out = end_to_end()
     if not out["ok"]:
         return {"reproduced": True, "key": f"C02/bytes/{out['cex']['direction']}", "what": out["detail"], "input": out["cex"]}
+    out = end_to_end(ignore=True)
+    if not out["ok"]:
+        return {"reproduced": True, "key": f"C02/bytes-under-ignore-config/{out['cex']['direction']}", "what": "written while fields are ignored for comparison: " + out["detail"], "input": out["cex"]}
     # targeted replays for solver witnesses
     m = (res.get("cex") or {}).get("kw") or {}
     if "varint" in gid or "identifier" in gid or "length-prefix" in gid:
